@@ -4058,4 +4058,88 @@ theorem add_exact (prec : ℕ) (hp : 2 ≤ prec) (u v : F) (hu : OpWF u) (hv : O
         rwa [toQ_neg_size v hv, sub_neg_eq_add] at this
 
 
+/-! ### shifts of long operands -/
+
+theorem top_top (n : ℕ) (d : List Nat) : top n (top n d) = top n d :=
+  top_of_le (by rw [top_length]; omega)
+
+/-- the operand truncated to its n most significant limbs (what the shifts and copies read) -/
+def truncOp (n : ℕ) (u : F) : F :=
+  ⟨u.prec, if u.size ≥ 0 then ((top n u.d).length : ℤ) else -((top n u.d).length : ℤ), u.exp, top n u.d⟩
+
+theorem truncOp_spec (n prec : ℕ) (hn1 : 1 ≤ prec) (hn : prec ≤ n) (u : F) (hu : OpWF u) (h0 : u.size ≠ 0) :
+    OpWF (truncOp n u) ∧ (truncOp n u).size ≠ 0 ∧ ((truncOp n u).size ≥ 0 ↔ u.size ≥ 0) ∧
+    (truncOp n u).d.length ≤ n ∧
+    |toQ (truncOp n u) - toQ u| < eps prec * |toQ u| := by
+  have hne := hu.ne_nil h0
+  obtain ⟨t1, t2, t3, t4, _⟩ := top_facts n (by omega) u.d hu.1 hne hu.2.2.1
+  have hlp : 0 < (top n u.d).length := List.length_pos_of_ne_nil t2
+  have hsz : (truncOp n u).size ≠ 0 := by
+    unfold truncOp; dsimp only
+    by_cases h : u.size ≥ 0
+    · rw [if_pos h]; omega
+    · rw [if_neg h]; omega
+  refine ⟨⟨t1, ?_, t3, fun h => absurd h hsz⟩, hsz, ?_, by unfold truncOp; dsimp only; rw [t4]; omega, ?_⟩
+  · unfold truncOp; dsimp only
+    by_cases h : u.size ≥ 0
+    · rw [if_pos h]; simp
+    · rw [if_neg h]; simp
+  · unfold truncOp; dsimp only
+    by_cases h : u.size ≥ 0
+    · rw [if_pos h]; constructor <;> intro <;> omega
+    · rw [if_neg h]; constructor <;> intro <;> omega
+  · have hq : toQ (truncOp n u) = (if u.size ≥ 0 then (1 : ℚ) else -1) * qv (top n u.d) u.exp := by
+      unfold truncOp; rw [toQ_mk, mul_assoc]; rfl
+    have hq2 : toQ u = (if u.size ≥ 0 then (1 : ℚ) else -1) * qv u.d u.exp := by rw [toQ_def', mul_assoc]; rfl
+    have hσ : |(if u.size ≥ 0 then (1 : ℚ) else -1)| = 1 := by by_cases h : u.size ≥ 0 <;> simp [h]
+    rw [hq, hq2, ← mul_sub, abs_mul, abs_mul, hσ, one_mul, one_mul]
+    obtain ⟨b1, b2⟩ := qv_top_lt n u.d u.exp hu.1
+    have hX := qv_ge u.d u.exp hne hu.2.2.1
+    have hXpos : 0 < qv u.d u.exp := lt_of_lt_of_le (zpow_pos Bq_pos _) hX
+    have hQ : (0 : ℚ) < (B : ℚ) ^ (prec - 1) := pow_pos Bq_pos _
+    rw [eps_eq, abs_of_pos hXpos, abs_sub_comm, abs_of_nonneg (by linarith), div_mul_eq_mul_div, lt_div_iff₀ hQ]
+    have h1 : (B : ℚ) ^ (u.exp - (n : ℤ)) * (B : ℚ) ^ (prec - 1) ≤ (B : ℚ) ^ (u.exp - 1) := by
+      rw [← zpow_natCast, ← zpow_add₀ Bq_ne]; exact zpow_le_zpow_B (by omega)
+    have := mul_lt_mul_of_pos_right b2 hQ
+    nlinarith
+
+/-- mpf_mul_2exp for an operand of any length: the shift is exact on the operand truncated to prec (or prec+1) limbs -/
+theorem mul_2exp_trunc (prec : ℕ) (u : F) (e : ℕ) (n : ℕ) (hn : n = if e % 64 = 0 then prec + 1 else prec)
+    (h0 : u.size ≠ 0) (hs : (truncOp n u).size ≠ 0) (hsg : (truncOp n u).size ≥ 0 ↔ u.size ≥ 0) :
+    mul_2exp prec (truncOp n u) e = mul_2exp prec u e ∧ div_2exp prec (truncOp n u) e = div_2exp prec u e := by
+  have hd : (truncOp n u).d = top n u.d := rfl
+  have he : (truncOp n u).exp = u.exp := rfl
+  have hdec : (if (truncOp n u).size ≥ 0 then (1 : ℤ) else 0) = (if u.size ≥ 0 then 1 else 0) := by
+    by_cases h : u.size ≥ 0
+    · rw [if_pos h, if_pos (hsg.mpr h)]
+    · rw [if_neg h, if_neg (fun h' => h (hsg.mp h'))]
+  constructor
+  · unfold mul_2exp
+    rw [if_neg hs, if_neg h0]
+    by_cases h64 : e % 64 = 0
+    · rw [if_pos h64] at hn; subst hn
+      simp only [h64, if_true, hd, he, top_top]
+      by_cases h : u.size ≥ 0
+      · rw [if_pos h, if_pos (hsg.mpr h)]
+      · rw [if_neg h, if_neg (fun h' => h (hsg.mp h'))]
+    · rw [if_neg h64] at hn; subst hn
+      simp only [h64, if_false, hd, he, top_top]
+      by_cases h : u.size ≥ 0
+      · simp only [if_pos h, if_pos (hsg.mpr h)]
+      · simp only [if_neg h, if_neg (fun h' => h (hsg.mp h'))]
+  · unfold div_2exp
+    rw [if_neg hs, if_neg h0]
+    by_cases h64 : e % 64 = 0
+    · rw [if_pos h64] at hn; subst hn
+      simp only [h64, if_true, hd, he, top_top]
+      by_cases h : u.size ≥ 0
+      · rw [if_pos h, if_pos (hsg.mpr h)]
+      · rw [if_neg h, if_neg (fun h' => h (hsg.mp h'))]
+    · rw [if_neg h64] at hn; subst hn
+      simp only [h64, if_false, hd, he, top_top]
+      by_cases h : u.size ≥ 0
+      · simp only [if_pos h, if_pos (hsg.mpr h)]
+      · simp only [if_neg h, if_neg (fun h' => h (hsg.mp h'))]
+
+
 end Mpir.Mpf
